@@ -416,7 +416,10 @@ def main_check(spec, tier, master):
         with open(os.environ["VERIF_DIGESTS"], "w") as fh:
             json.dump(agg.get("digests", {}), fh, sort_keys=True)
         return rc  # determinism sweeps do not rewrite evidence
-    if rc != 2:
+    if os.environ.get("BT_REPO") and os.path.realpath(os.environ["BT_REPO"]) != "/repo":
+        # run against a scratch copy (mutant / seeded change): never overwrite the evidence of /repo
+        print("(evidence not written: BT_REPO=%s)" % os.environ["BT_REPO"])
+    elif rc != 2:
         os.makedirs(os.path.join(ROOT, "evidence"), exist_ok=True)
         with open(os.path.join(ROOT, "evidence", spec.id + ".json"), "w") as fh:
             json.dump(ev, fh, indent=1, default=str)
